@@ -207,6 +207,7 @@ int64_t cmb_buffer_get(struct cmb_buffer *bp, uint64_t *amntp)
 {
     /* Waiting since now, also if it takes several rounds at the guard */
     const double waiting_since = cmb_time();
+    uint64_t arrival = 0u;
 
     cmb_assert_release(bp != NULL);
     cmb_assert_release(amntp != NULL);
@@ -262,7 +263,8 @@ int64_t cmb_buffer_get(struct cmb_buffer *bp, uint64_t *amntp)
         const int64_t sig = cmi_resourceguard_wait_since(&(bp->front_guard),
                                                          buffer_has_content,
                                                          NULL,
-                                                         waiting_since);
+                                                         waiting_since,
+                                                         &arrival);
         if (sig == CMB_PROCESS_SUCCESS) {
             cmb_logger_info(stdout,"Returned successfully from wait");
         }
@@ -296,6 +298,7 @@ int64_t cmb_buffer_put(struct cmb_buffer *bp, uint64_t *amntp)
 {
     /* Waiting since now, also if it takes several rounds at the guard */
     const double waiting_since = cmb_time();
+    uint64_t arrival = 0u;
 
     cmb_assert_release(bp != NULL);
     cmb_assert_release(amntp != NULL);
@@ -348,7 +351,8 @@ int64_t cmb_buffer_put(struct cmb_buffer *bp, uint64_t *amntp)
         const int64_t sig = cmi_resourceguard_wait_since(&(bp->rear_guard),
                                                          buffer_has_space,
                                                          NULL,
-                                                         waiting_since);
+                                                         waiting_since,
+                                                         &arrival);
         if (sig == CMB_PROCESS_SUCCESS) {
             cmb_logger_info(stdout,"Returned successfully from wait");
         }
